@@ -11,8 +11,8 @@ git apply $SD/patch.diff || { echo "PATCH-FAILS" >> $OUT; exit 1; }
 go build ./... >> $OUT 2>&1 && echo "BUILD-OK" >> $OUT
 go test -count=1 -vet=off $PKG >> $OUT 2>&1 && echo "EXISTING-TESTS-PASS-WITH-CHANGE" >> $OUT
 cp $SD/zz_seed_demo_test.go $W/$PKG/zz_seed_demo_test.go
-if go test -count=1 -vet=off -run 'TestSeedDemo' $PKG >> $OUT 2>&1; then echo "DEMO-PASSES-WITH-CHANGE(bad)" >> $OUT; else echo "DEMO-FAILS-WITH-CHANGE" >> $OUT; fi
+if go test -count=1 -vet=off -run 'SeedDemo' $PKG >> $OUT 2>&1; then echo "DEMO-PASSES-WITH-CHANGE(bad)" >> $OUT; else echo "DEMO-FAILS-WITH-CHANGE" >> $OUT; fi
 git checkout -- . 
-if go test -count=1 -vet=off -run 'TestSeedDemo' $PKG >> $OUT 2>&1; then echo "DEMO-PASSES-WITHOUT-CHANGE" >> $OUT; else echo "DEMO-FAILS-WITHOUT-CHANGE(bad)" >> $OUT; fi
+if go test -count=1 -vet=off -run 'SeedDemo' $PKG >> $OUT 2>&1; then echo "DEMO-PASSES-WITHOUT-CHANGE" >> $OUT; else echo "DEMO-FAILS-WITHOUT-CHANGE(bad)" >> $OUT; fi
 cd /; git -C /repo worktree remove --force $W
 grep -E "^[A-Z-]+(\(bad\))?$" $OUT | tr '\n' ' '; echo
